@@ -4,7 +4,10 @@ import SerfModel.Model.Handlers
 C09 checker.  `inj <entry> <hex…> => ok`: one network input was handed to a real node's delegate
 and the node's process survived it (the harness attributes a dead worker process to the exact
 input and reports `CRASH <function>` there).  `alive => serving`: Members/Stats/State still answer
-and a fresh user event is still delivered.
+and a fresh user event is still delivered.  `inj closerace <rounds> <lanes> <seed> => ok`: replies were
+delivered through NotifyMsg while the application closed the queries early, for that many rounds (a
+schedule-dependent search); `send-on-closed-channel round=N` is the panic of the delivering goroutine
+(monitor key `crash-send-on-closed`; the skeleton's `site_QueryResponse_send…` sites are the same event).
 
 Model output: for `inj msg`/`inj merge*`/`inj ping`/member metadata/`inj respopen` the control skeleton
 `SerfModel.Handlers.handle` is run on the input's bytes with a decoder that rejects everything (the type-byte dispatch and the length
@@ -69,6 +72,7 @@ def predict (s : St) (op : List String) : String :=
 
 def keyOf (impl : String) : String :=
   match impl.splitOn " " with
+  | "send-on-closed-channel" :: _ => "crash-send-on-closed"
   | "CRASH" :: site :: _ => "crash-" ++ site
   | "PANIC" :: _ => "panic"
   | _ => "not-serving"
